@@ -199,11 +199,30 @@ class Routine(Part):
         self.tier = tier
 
     def describe(self, tier):
-        return ('systems {kundur_full + line trip, ieee14_full, smib + fault} x sparselib {klu, umfpack, spsolve} x linsolve '
+        return ('systems {kundur_full + line trip, ieee14_full, smib + fault, ieee14 with an islanded load bus} x sparselib {klu, umfpack, spsolve} x linsolve '
                 '{0,1} x ipadd {1,0}; power-flow method {NR, dishonest, NK} on the klu/default column' +
                 ('' if tier == 'quick' else '; numba {0,1}'))
 
-    SYSTEMS = ['kundur/kundur_full.xlsx', 'ieee14/ieee14_linetrip.xlsx', 'smib/SMIB.json']
+    # '#isolated': every line of the load-only bus with the fewest lines is switched off before set-up (an islanded bus
+    # goes through the island post-processing of the residuals and of the assembled matrices)
+    SYSTEMS = ['kundur/kundur_full.xlsx', 'ieee14/ieee14_linetrip.xlsx', 'smib/SMIB.json', 'ieee14/ieee14_linetrip.xlsx#isolated']
+
+    @staticmethod
+    def load(sysname, opts):
+        from vmc import systems
+        if not sysname.endswith('#isolated'):
+            return systems.load_case(sysname, config_option=opts)
+        ss = systems.load_case(sysname.split('#')[0], setup=False, config_option=opts)
+        gens = set(ss.PV.bus.v) | set(ss.Slack.bus.v)
+        deg = {}
+        for k in range(ss.Line.n):
+            for b in (ss.Line.bus1.v[k], ss.Line.bus2.v[k]):
+                deg.setdefault(b, []).append(k)
+        cand = sorted((len(v), str(b), b) for b, v in deg.items() if b not in gens)
+        for k in deg[cand[0][2]]:
+            ss.Line.u.v[k] = 0
+        ss.setup()
+        return ss
 
     def cases(self, tier):
         out = []
@@ -223,7 +242,7 @@ class Routine(Part):
         opts = [f'PFlow.sparselib={case["lib"]}', f'TDS.sparselib={case["lib"]}', f'EIG.sparselib={case["lib"]}',
                 f'PFlow.linsolve={case["linsolve"]}', f'TDS.linsolve={case["linsolve"]}',
                 f'System.ipadd={case["ipadd"]}', f'PFlow.method={case["method"]}', f'System.numba={case["numba"]}']
-        ss = systems.load_case(case['sys'], config_option=opts)
+        ss = self.load(case['sys'], opts)
         systems.quiet_tds(ss)
         res = dict(libs=(ss.PFlow.solver.sparselib, ss.TDS.solver.sparselib, ss.EIG.solver.sparselib))
         res['pf_ok'] = bool(ss.PFlow.run())
@@ -235,7 +254,7 @@ class Routine(Part):
             res['eig_ok'] = f'raised {type(e).__name__}: {e}'
             res['mu'] = None
         # EIG initialises TDS at t=0 and performs one step evaluation; run the trajectory in a fresh system
-        ss2 = systems.load_case(case['sys'], config_option=opts)
+        ss2 = self.load(case['sys'], opts)
         systems.quiet_tds(ss2)
         ss2.PFlow.run()
         ss2.TDS.config.tf = 2.0
